@@ -29,6 +29,7 @@ func vYield()
 func vObserve(tag string, v interface{})
 func vSymbolic() bool
 func vThorough() bool
+func vMapOrder(policy string)
 `
 }
 
@@ -145,6 +146,7 @@ func vReach(tag string) {}
 func vYield()           { runtime.Gosched() }
 func vSymbolic() bool   { return false }
 func vThorough() bool   { return verifThorough }
+func vMapOrder(string)  {}
 func vObserve(tag string, v interface{}) {
 	verifMu.Lock()
 	verifTrace = append(verifTrace, fmt.Sprintf("%s=%v", tag, v))
